@@ -15,6 +15,7 @@ import (
 	"strconv"
 	"strings"
 	"time"
+	"unsafe"
 
 	v1 "k8s.io/api/core/v1"
 	metav1 "k8s.io/apimachinery/pkg/apis/meta/v1"
@@ -763,7 +764,8 @@ func exec5(x in5) ([]int64, []int64) {
 		// the node has exactly the cpu in use (a single job with running pods has
 		// share 1) - unless some share key is not a whole cpu: then the case is a
 		// NEAR-TIE one and the node has 10^7 milli-cpu, so that jobs holding k, k+7,
-		// k+14 milli-cpu have drf shares within 10^-6 of their neighbours
+		// k+14 milli-cpu have drf shares within 10^-6 of their neighbours (the node's pod
+		// capacity is 10^12 so that the pod count never is the dominant share)
 		total, whole := int64(0), true
 		for _, k := range x.ks {
 			if k.share < 0 {
@@ -778,7 +780,7 @@ func exec5(x in5) ([]int64, []int64) {
 		if !whole {
 			total = 10000000
 		}
-		tc.Nodes = []*v1.Node{util.BuildNode("n1", api.BuildResourceList(fmt.Sprintf("%dm", total), "1000Gi", []api.ScalarResource{{Name: "pods", Value: "1000"}}...), nil)}
+		tc.Nodes = []*v1.Node{util.BuildNode("n1", api.BuildResourceList(fmt.Sprintf("%dm", total), "1000Gi", []api.ScalarResource{{Name: "pods", Value: "1000000000000"}}...), nil)}
 		tc.Queues = []*schedulingv1beta1.Queue{util.BuildQueue("q1", 1, nil)}
 		seenPrio := map[int64]bool{}
 		for _, k := range x.ks {
@@ -907,6 +909,12 @@ func heapLess(mode int64) api.LessFn {
 		}
 		return b < a
 	}
+}
+
+// the less function of a util.PriorityQueue (unexported field)
+func queueLess(q *util.PriorityQueue) api.LessFn {
+	f := reflect.ValueOf(q).Elem().FieldByName("queue").FieldByName("lessFn")
+	return reflect.NewAt(f.Type(), unsafe.Pointer(f.UnsafeAddr())).Elem().Interface().(api.LessFn)
 }
 
 // the backing slice is unexported; read it through reflection (no hook)
@@ -1084,17 +1092,12 @@ func run8(in []int64) []int64 {
 	if len(out) != len(tasks) {
 		panic("the victims queue lost or duplicated a task")
 	}
-	// the less function on every ordered pair of different victims, through the
-	// public API only: heap.Push of b then a calls less(a, b) once and puts a in
-	// front exactly when it answers true
-	pre := &api.TaskInfo{UID: "preemptor", Job: jobKey(x.pre)}
-	lm := matB(len(tasks), func(a, b int) bool {
-		if a == b {
-			return false
-		}
-		q2 := ssn.BuildVictimsPriorityQueue([]*api.TaskInfo{tasks[b], tasks[a]}, pre)
-		return q2.Pop().(*api.TaskInfo) == tasks[a]
-	})
+	// the less function of the victims queue itself, on EVERY ordered pair
+	// including the diagonal (less(t, t) is true in the real code: the same-job
+	// branch answers !TaskOrderFn(t, t)); the closure sits in an unexported field
+	// and is read through reflect + unsafe (read-only)
+	less := queueLess(ssn.BuildVictimsPriorityQueue(nil, &api.TaskInfo{UID: "preemptor", Job: jobKey(x.pre)}))
+	lm := matB(len(tasks), func(a, b int) bool { return less(tasks[a], tasks[b]) })
 	return cat(tag(1), eList(out), tag(2), lm)
 }
 
